@@ -348,8 +348,31 @@ class CallMixin(object):
                     if isinstance(kwargs, Raised):
                         yield st3, kwargs
                         continue
+                    self.emit_call_asserts(st3, node, args, kwargs)
                     for r in self.call(st3, fn, args, kwargs, fr, node):
                         yield r
+
+    def emit_call_asserts(self, st, node, args, kwargs):
+        """contract clause `call_asserts={'<callee source text>': [(name, expr), ...]}`: obligations about the arguments
+        of every call of that callee in the function under verification (expr over the caller's locals, `arg(i)` and
+        `kwarg('name')`): what is handed on is what the property says must be handed on"""
+        c = getattr(self, 'cur_contract', None)
+        ca = getattr(c, 'call_asserts', None)
+        if not ca or self.call_stack:
+            return
+        src = ast.unparse(node.func)
+        if src not in ca:
+            return
+        self._cur_call = (args, kwargs)
+        try:
+            env = dict(st.locals)
+            env.update(getattr(self, '_spec_env_params', {}))
+            for name, e in ca[src]:
+                goal = self.spec_bool(e, st, dict(st.locals), getattr(self, '_verify_pre', None), as_goal=True)
+                self.vcs.append(VC('%s#callsite.%s.%s@%s' % (c.key, src, name, fresh_name('site')), st.pc, goal,
+                                   'call_assert', {'clause': e, 'callee': src, 'line': getattr(node, 'lineno', None)}))
+        finally:
+            self._cur_call = None
 
     def ev_args(self, nodes, st, fr):
         if not nodes:
